@@ -885,7 +885,8 @@ fn errnos_for(sys: &Sys, tier: &str) -> Vec<i32> {
         SYS_MKDIR | SYS_MKDIRAT => vec![libc::EACCES, libc::ENOSPC, libc::EIO],
         SYS_WRITE | SYS_PWRITE64 | SYS_WRITEV => vec![libc::EIO, libc::EINTR, libc::ENOSPC, libc::EDQUOT],
         SYS_READ | SYS_PREAD64 | SYS_READV => vec![libc::EIO, libc::EINTR],
-        SYS_RENAME | SYS_RENAMEAT | SYS_RENAMEAT2 => vec![libc::EACCES, libc::EIO, libc::ENOSPC, libc::EXDEV],
+        // ENOENT: the source (a temp file) was removed by somebody else meanwhile, e.g. a clear of the cache
+        SYS_RENAME | SYS_RENAMEAT | SYS_RENAMEAT2 => vec![libc::EACCES, libc::EIO, libc::ENOSPC, libc::EXDEV, libc::ENOENT],
         SYS_UNLINK | SYS_UNLINKAT | SYS_RMDIR => vec![libc::EACCES, libc::EIO],
         SYS_FALLOCATE => vec![libc::ENOSPC, libc::EOPNOTSUPP, libc::EINTR],
         SYS_FTRUNCATE => vec![libc::EIO],
@@ -1240,6 +1241,10 @@ fn victim_write(rng: &mut Rng, keyed: bool, vi: usize, len: u64, ki: usize) -> V
         }
         if keyed && rng.chance(1, 2) {
             o["meta"] = json!({"caf\u{e9}": "\u{65e5}\u{672c}", "n": 1});
+            if rng.chance(1, 2) {
+                // a record whose middle is dense with multi-byte characters: a torn append is likely to end inside one
+                o["meta"]["t"] = json!("\u{e9}\u{65e5}".repeat(30));
+            }
             o["raw"] = json!("00ff10");
         }
         if keyed {
